@@ -43,6 +43,10 @@ func {T}.tryGrowByReslice
   ensures [C19.reslice-yes] implies(n <= old(cap({r}.buf) - len({r}.buf)), result1 && result0 == old(len({r}.buf)) && len({r}.buf) == old(len({r}.buf)) + n && samearray({r}.buf, old({r}.buf)) && cap({r}.buf) == old(cap({r}.buf)))
   ensures [C19.reslice-no] implies(n > old(cap({r}.buf) - len({r}.buf)), !result1 && result0 == 0 && {r}.buf == old({r}.buf))
 
+func {G}growSlice$1
+  maypanic
+  at panic assert [C19.toolarge-value] value == ErrTooLarge
+
 func {G}growSlice
   ignoredefer
   requires n >= 0 && n <= 9223372036854775807 - len(b) && 2*cap(b) >= 0
@@ -203,7 +207,8 @@ func {T}.ReadFrom
   maypanic
   ensures [C19.readfrom-keep] 0 <= {r}.off && {r}.off <= len({r}.buf) && len({r}.buf) - {r}.off == old(len({r}.buf) - {r}.off) + n && n >= 0
   ensures [C19.readfrom-err] err != io.EOF && {r}.lastRead == opInvalid
-  loop 1 invariant [C19.readfrom-inv] 0 <= {r}.off && {r}.off <= len({r}.buf) && len({r}.buf) - {r}.off == old(len({r}.buf) - {r}.off) + n && n >= 0 && {r}.lastRead == opInvalid && !isnil(io.EOF)
+  ensures [C19.readfrom-all] n == ghost.readSum - old(ghost.readSum)
+  loop 1 invariant [C19.readfrom-inv] 0 <= {r}.off && {r}.off <= len({r}.buf) && len({r}.buf) - {r}.off == old(len({r}.buf) - {r}.off) + n && n >= 0 && {r}.lastRead == opInvalid && !isnil(io.EOF) && n == ghost.readSum - old(ghost.readSum)
 
 func {T}.AvailableBuffer
   requires {r} != nil
